@@ -6,6 +6,7 @@ import (
 	"go/constant"
 	"go/token"
 	"go/types"
+	"os"
 	"sort"
 	"strings"
 
@@ -202,6 +203,35 @@ func c07NonEmpty(c *Ctx, r *Report) {
 			inLoopAppend = true
 		} else {
 			plainAppend = true
+		}
+	}
+	if !inLoopAppend {
+		// the group arm written as a fill by index: eList := make([]interface{}, len(ea)); eList[i] = entry(ea[i])
+		for _, b := range fer.Blocks {
+			if innermostLoop(loops, b) == nil {
+				continue
+			}
+			for _, in := range b.Instrs {
+				st, ok := in.(*ssa.Store)
+				if !ok {
+					continue
+				}
+				ia, ok := st.Addr.(*ssa.IndexAddr)
+				if !ok {
+					continue
+				}
+				ms, ok := ia.X.(*ssa.MakeSlice)
+				if !ok {
+					continue
+				}
+				if _, isC := ia.Index.(*ssa.Const); isC {
+					continue
+				}
+				// as long as the group: the length of the list is the length of the group
+				if inner, isLen := isLenOf(ms.Len); isLen && isErrSlice(inner.Type()) || isLen && c.isNamed(inner.Type(), "Errors") {
+					inLoopAppend = true
+				}
+			}
 		}
 	}
 	if !plainAppend {
@@ -962,6 +992,19 @@ func checkC18(c *Ctx, r *Report) {
 					for _, a := range t.Call.Args {
 						walk(a)
 					}
+				} else if cal := t.Call.StaticCallee(); cal != nil && c.inPkg(cal) && cal != rv && len(cal.Blocks) > 0 && isScannerFn(c, cal) {
+					// a kind of value read by a helper of the value reader: what the helper returns first
+					for _, rt := range returnsOf(cal) {
+						if len(rt.Results) > 0 {
+							walk(rt.Results[0])
+						}
+					}
+				}
+			case *ssa.Extract:
+				if t.Index == 0 {
+					if call, ok := t.Tuple.(*ssa.Call); ok {
+						walk(call)
+					}
 				}
 			case *ssa.Slice:
 				if al, ok := t.X.(*ssa.Alloc); ok {
@@ -1508,6 +1551,9 @@ func runeWrites(c *Ctx, fn *ssa.Function, rn ssa.Value) []runeWrite {
 				continue
 			}
 			base := reachSet(b, rn, uni)
+			if os.Getenv("E8_DEBUG") != "" {
+				fmt.Fprintf(os.Stderr, "write in block %d (%s) preds %d base %s\n", b.Index, b.Comment, len(b.Preds), base)
+			}
 			seen := map[ssa.Value]bool{}
 			var walk func(v ssa.Value, rs iset)
 			walk = func(v ssa.Value, rs iset) {
